@@ -351,10 +351,28 @@ pub fn one_case<R: Src>(r: &mut R, id: &str) -> Option<(IllCase, (String, String
          },
          "include_source_in_ascent_source" => {
             case_kind = "ascent_source".into();
-            let cut = r.below(new_items.len() + 1);
-            new_items.insert(cut, "include_source!(other::thing);".into());
+            // at any item position; directly after an in-program macro definition (the one item that ends with `}`);
+            // directly after an inner attribute at the top of the source
+            let form = r.below(4);
+            match form {
+               0 | 1 => {
+                  let cut = r.below(new_items.len() + 1);
+                  new_items.insert(cut, "include_source!(other::thing);".into());
+                  site = format!("item{}", cut);
+               },
+               2 => {
+                  let cut = n_decl + r.below(new_items.len() - n_decl + 1);
+                  new_items.insert(cut, "include_source!(other::thing);".into());
+                  new_items.insert(cut, "macro zzm($x: ident) { if true }".into());
+                  site = format!("item{}:after_macro_definition", cut);
+               },
+               _ => {
+                  new_items.insert(0, "include_source!(other::thing);".into());
+                  new_items.insert(0, "#![measure_rule_times]".into());
+                  site = "item0:after_inner_attribute".into();
+               },
+            }
             new_items.insert(0, "some_source:".into());
-            site = format!("item{}", cut);
             true
          },
          other => panic!("operator {other}"),
